@@ -12,7 +12,7 @@ from ..flow import Flow
 from .. import paths as pathsmod
 from .c06_types import Resolver
 from .c06_sites import SiteScanner
-from .c06_order import Site
+from .c06_order import Site, UNORDERED
 from . import c06_total
 
 NINJA = 'mesonbuild/backend/ninjabackend.py'
@@ -35,13 +35,18 @@ EXPLANATION = (
     'configure_file outputs, every use of a value that is set-typed by annotation or construction is classified as DESIGN B.5 prescribes; '
     'an order-sensitive consumer (for-loop with an insertion-ordered effect, list()/tuple()/join()/comprehension/*-unpacking whose result '
     'escapes) that is not wrapped in sorted() is a violation, order-insensitive consumers are discharged, everything unclassifiable is '
-    'information. R2 (K3): in NinjaBuildElement.write every set-typed attribute reaches the written text only through sorted(). '
+    'information. The two unordered sources the statement names - os.environ iteration and directory listings (iterdir/listdir/scandir/'
+    'glob/os.walk) - are typed like sets: armed in the text-producing modules; in dependency / compiler / tool detection they are '
+    'information (probing depends on the layout found), except the shape that provably discards a written priority order (source '
+    'filtered by membership in a list/tuple and collected in source order). R2 (K3): in NinjaBuildElement.write every set-typed attribute reaches the written text only through sorted(). '
     'R3 (K1/K2): the five sibling writers of configure-time files open a temporary path, every normal path ends in '
     'replace_if_different(final, temporary) and that call is only reachable after the writer was closed (with-exit / close()); inside replace_if_different os.replace happens exactly on the paths where the comparison did '
     'not prove equality and the equal path unlinks the temporary; build.ninja goes through temp + os.replace. R4 (K3): the scratch file '
     'names meson_exe_*/meson_rsp_* are functions of a digest fed by command, env, workdir, capture and feed and by nothing volatile. '
     'R5 (K6): every un-keyed sorted()/sort()/min()/max() in scope whose elements are instances of a repository class relies on a __lt__ '
-    'whose decision table is a strict total order consistent with __eq__. Does NOT decide byte equality across runs (run-time relation), '
+    'whose decision table is a strict total order consistent with __eq__. R5 covers every repository class that defines __lt__ (total_ordering classes without __eq__: the constructor-bound '
+    'fields stand for the identity). Does NOT decide byte equality across runs (run-time relation), whether serialised state is dumped '
+    'before later configure steps mutate objects it aliases (e.g. dump_coredata vs. postconf hooks: run-time aliasing), '
     'orders that come from the file system or the environment, or hash order hidden behind untyped values (reported as information).')
 ASSUMPTIONS = ['annotations T.Set/FrozenSet/AbstractSet/MutableSet and set()/frozenset()/{...} constructions denote builtin hash-ordered sets',
                'dict, list, OrderedSet, OrderedDict, deque keep insertion order; sorted() over str/int/tuples of those is total',
@@ -111,6 +116,59 @@ def _describe(s: Site) -> str:
     return f'{s.mod.rel}:{getattr(s.value, "lineno", 0)} {s.func}: {s.consumer} over `{short(s.value, 50)}` [{s.ty.why[:90]}]'
 
 
+def _violation_text(s: Site) -> str:
+    if UNORDERED in s.ty.why:
+        what = s.ty.why[s.ty.why.index(UNORDERED) + len(UNORDERED):]
+        return (f'{what} reaches output: `{short(s.value, 60)}` is ordered by the file system / process environment, not by the build '
+                f'definition; {s.consumer}: {s.reason}').replace('hash order', 'that order').replace('of a set', 'of it').replace('over a set', 'over it')
+    return f'hash order reaches output: `{short(s.value, 60)}` is a set ({s.ty.why[:120]}); {s.consumer}: {s.reason}'
+
+
+# modules that decide compile / link / command arguments at configure time (dependency and tool detection): swept for the two
+# unordered sources of the statement (environment-variable order, directory-listing order) only
+WIDE_DIRS = ('mesonbuild/dependencies/', 'mesonbuild/compilers/', 'mesonbuild/cmake/', 'mesonbuild/cargo/', 'mesonbuild/linkers/')
+WIDE_FILES = ('mesonbuild/environment.py', 'mesonbuild/envconfig.py', 'mesonbuild/programs.py', 'mesonbuild/machinefile.py')
+_SRC_PAT = None
+
+
+def _unordered_sweep(ctx: RuleCtx, scope: T.List[str]) -> None:
+    """Outside the text producers the file system / environment is *probed* on purpose; whether listing order changes the outcome depends
+    on the layout found (not decided: information).  One shape is decided everywhere: an unordered source filtered by membership in a
+    priority sequence and collected in the source's order discards the priority order written in the source."""
+    import re
+    global _SRC_PAT
+    if _SRC_PAT is None:
+        _SRC_PAT = re.compile(r'iterdir\(|os\.listdir|os\.scandir|glob\.i?glob|\.rglob\(|\.glob\(|os\.walk|os\.environ\.(items|keys|values)\(|in os\.environ\b|\(os\.environ\)')
+    sc = _scanner(ctx)
+    nfun = nsites = 0
+    for rel in ctx.repo.py_files('mesonbuild'):
+        if rel in scope or not (rel.startswith(WIDE_DIRS) or rel in WIDE_FILES):
+            continue
+        src = ctx.repo.read(rel)
+        if not _SRC_PAT.search(src):      # text pre-filter only: which files are worth parsing
+            continue
+        mod = ctx.repo.module(rel)
+        lines = src.splitlines()
+        for q, fn in mod.funcs().items():
+            if not _SRC_PAT.search('\n'.join(lines[fn.lineno - 1:fn.end_lineno])):
+                continue
+            nfun += 1
+            fc = sc._fc_chain(mod, fn, q)
+            for s in sc.scan_function(mod, fn, q):
+                if UNORDERED not in s.ty.why:
+                    continue
+                nsites += 1
+                lost = sc.priority_discarded(s, fc) if s.verdict in ('violation', 'info') else None
+                if lost and s.verdict == 'violation':
+                    ctx.violation(s.mod, s.func, s.node, _violation_text(s) + '; ' + lost, s.value)
+                elif s.verdict in ('benign', 'sanitised'):
+                    ctx.ok(f'{_describe(s)} -> {s.verdict}{": " + s.reason if s.reason else ""}'[:300])
+                else:
+                    ctx.note(f'probing order not decided ({s.verdict}): {_describe(s)}: {s.reason}'[:320])
+    ctx.floor('detection functions that read the environment / list directories', nfun, 20)
+    ctx.note(f'unordered-source sweep: {nfun} functions, {nsites} uses')
+
+
 def r1(ctx: RuleCtx) -> None:
     with _NoGC():
         _positive_example(ctx)
@@ -120,9 +178,7 @@ def r1(ctx: RuleCtx) -> None:
             for s in sorted(_sites(ctx, rel), key=lambda s: getattr(s.value, 'lineno', 0)):
                 counts[s.verdict] += 1
                 if s.verdict == 'violation':
-                    ctx.violation(s.mod, s.func, s.node,
-                                  f'hash order reaches output: `{short(s.value, 60)}` is a set ({s.ty.why[:120]}); {s.consumer}: {s.reason}',
-                                  s.value)
+                    ctx.violation(s.mod, s.func, s.node, _violation_text(s), s.value)
                 elif s.verdict in ('benign', 'sanitised'):
                     ctx.ok(f'{_describe(s)} -> {s.verdict}{": " + s.reason if s.reason else ""}'[:300])
                 else:
@@ -132,6 +188,7 @@ def r1(ctx: RuleCtx) -> None:
         ctx.floor('consumers sanitised by sorted()', counts['sanitised'], 5)
         sc = _scanner(ctx)
         ctx.note(f'sites: {counts}; callee resolution in summaries: {sc.calls_resolved} resolved, {sc.calls_unresolved} unresolved')
+        _unordered_sweep(ctx, scope)
         if ctx.thorough:
             _thorough_information(ctx, scope)
 
